@@ -152,6 +152,19 @@ def type_universe(tier):
         out.append(pytd.IntersectionType(combo))
         out.append(pytd.TupleType(pytd.NamedType("tuple"), combo))
         out.append(pytd.GenericType(pytd.NamedType("dict"), combo))
+  # set types built from arguments that are themselves set types (the constructors flatten them): every
+  # (member, 2-member set type) in both orders, and pairs of overlapping 2-member set types
+  small = members[:4] + [pytd.Literal(1)]
+  for cls in (pytd.UnionType, pytd.IntersectionType):
+    inner = [cls(c) for c in itertools.permutations(small, 2)]
+    for a in small:
+      for u in inner:
+        out.append(cls((a, u)))
+        out.append(cls((u, a)))
+    for u in inner[:4]:
+      for v in inner:
+        out.append(cls((u, v)))
+    out.append(cls((small[0], cls((small[0], cls((small[0], small[1])))))))
   for n in list(nodes):
     if isinstance(n, pytd.UnionType) and len(n.type_list) <= 3:
       for perm in itertools.permutations(n.type_list):
@@ -174,9 +187,28 @@ def eqhash(tier):
   return len(nodes), pairs, eqs, bad
 
 
+def value_stubs():
+  """Stubs whose declarations carry *values* (Literal parameters, __all__ lists) at representation boundaries."""
+  out = []
+  ints = [0, -1, 2**31, 2**63 - 1, 2**63, 2**64 - 1, 2**64, -2**63, -2**63 - 1, 10**30]
+  strs = ["''", "'\\x00'", "'\u00e9'", "'\\u2028'", "'\\''", "'a b'", "b''", "b'\\x00\\xff'"]
+  for v in [str(i) for i in ints] + strs:
+    out.append("from typing import Literal\nx: Literal[%s]\ndef f(a: Literal[%s] = ...) -> Literal[%s]: ...\n" % (v, v, v))
+  lists = ["['a']", "['b']", "['a', 'b']", "[]", "('a',)", "['b', 'a', 'b']"]
+  body = "a: int\nb: str\n"
+  for first in lists:
+    out.append("__all__ = %s\n%s" % (first, body))
+    for second in lists:
+      out.append("__all__ = %s\n__all__ += %s\n%s" % (first, second, body))
+      for third in ("['a']", "['b']"):
+        out.append("__all__ = %s\n__all__ += %s\n%s__all__ += %s\n" % (first, second, body, third))
+  return out
+
+
 def run(rep, tier, seed):
   items = [("prog", i, src) for i, src in c05.programs(tier)]
   items += [("stub", i, t) for i, t in stubspace.stubs(tier)]
+  items += [("stub", stubspace.sid(t), t) for t in value_stubs()]
   items += [("bundled", m, m) for m in ("builtins", "typing", "collections", "enum", "protocols")]
   for (kind, i, text), (bad, outcome) in vrun.pmap(work, items, seed=seed, progress=5000):
     rep.evaluations += 1
